@@ -333,6 +333,8 @@ class Facts:
         # know them by; everything else about them is analysed as it stands. See `renamed_functions`.
         self.aliases = {}
         self.field_aliases = {}
+        self.inlined = {}
+        self.absorbed = set()
         if aliases:
             texts = None
 
@@ -366,6 +368,13 @@ class Facts:
             if self.field_aliases:
                 for _, d in raw:
                     _respell_fields(d, self.field_aliases)
+            # 4. functions the pinned tree does not have at all are analysed as part of their callers (jrsa/inline.py)
+            tbl = _load_fp_table()
+            if tbl:
+                from . import inline as _inline
+
+                self.inlined, self.absorbed = _inline.inline_new_helpers([d for _, d in raw], lambda b, crate: _fp_candidate(b, crate) and b["path"] not in tbl)
+        self._is_async_helper = {b["path"]: bool(b.get("asyncness")) for _, d in raw for b in d["bodies"] if b["path"] in self.absorbed}
         for f, d in raw:
             cname = d["crate"]
             self.files.append(f)
@@ -379,6 +388,8 @@ class Facts:
             }
             seen_here = {}
             for b in d["bodies"]:
+                if b["path"] in self.absorbed or (b["path"].endswith("::{closure#0}") and b["path"][: -len("::{closure#0}")] in self.absorbed and self._is_async_helper.get(b["path"][: -len("::{closure#0}")])):
+                    continue  # a new helper whose every use was expanded into its callers
                 body = Body(b, cname)
                 # Distinct items of one compilation can print the same path (e.g. two `__DeserializeWith` helpers that
                 # serde derives inside one visit_map, or the anonymous `_` consts): keep them all, the 2nd, 3rd.. under
@@ -424,6 +435,16 @@ class Facts:
             for b in self.bodies.values():
                 if b.parent:
                     ch.setdefault(b.parent, []).append(b)
+            # closures written inside a helper that was inlined belong to the callers as well
+            for h, callers in self.inlined.items():
+                extra = [c for c in ch.get(h, []) if c.path != h + "::{closure#0}"] + ch.get(h + "::{closure#0}", [])
+                if h + "::{closure#0}" in self.bodies and not (self.bodies.get(h) is not None and self.bodies[h].d.get("asyncness")):
+                    extra.append(self.bodies[h + "::{closure#0}"])
+                for cp in callers:
+                    lst = ch.setdefault(cp, [])
+                    for e in extra:
+                        if e not in lst:
+                            lst.append(e)
             self._children = ch
         return self._children.get(body.path, [])
 
